@@ -31,7 +31,7 @@ def get_counts(samples):
     return counts_dct
 
 
-def sample_from_probability_map(probability_map, shots):
+def sample_from_probability_map(probability_map, shots, rng=random):
     """Generate samples from a probability map.
 
     The samples are returned in a dict, where the keys are the possible outcomes, and
@@ -46,6 +46,8 @@ def sample_from_probability_map(probability_map, shots):
             probabilities.
         shots (Optional[int]): Number of samples to generate. If None, return the full
             probability map as a frequency map, filtered to non-zero probabilities.
+        rng: The source of randomness, an object with a `choices` method like
+            `random.Random`. Defaults to the global `random` module.
 
     Returns:
         Dict[Tuple[int], Fraction]: Mapping from samples to their frequencies.
@@ -57,7 +59,7 @@ def sample_from_probability_map(probability_map, shots):
             if not np.isclose(probability, 0.0)
         }
 
-    samples = random.choices(
+    samples = rng.choices(
         population=list(probability_map.keys()),
         weights=list(probability_map.values()),
         k=shots,
